@@ -45,8 +45,8 @@ C. *sees exactly the method, path, authority, header fields and body octets* (fu
    * `body_chunk_invariance`: the digest depends on the concatenation of the payloads only (empty frames included).
 D. *however the peer encodes / fragments* — restated from C03 (HPACK decoder), about the same `Hpack.Dec.next`:
    * `encoding_independence` (= `C03.dec_complete`), `request_field_decoded` (its consequence for the server loop),
-   * `fragmentation_independence` (= `C03.split_invariance_partial`; excluded: blocks that open with a dynamic table
-     size update, known findings F04/F05), `whole_block` (= `C03.block_whole`).
+   * `fragmentation_independence` (= `C03.split_invariance`, every block and every cut: F04/F05 repaired),
+     `whole_block` (= `C03.block_whole`).
 E. *padding, priority fields* — restated from C05 (frame parser): `frame_payload_intact` (= `C05.read_ok`): the frame
    value the read loop hands on carries the payload without padding / priority section.
 F. *the peer receives exactly the status and header fields* — composition of C04 with the full model:
@@ -73,8 +73,8 @@ H. *the request as a message* — restated from the message model (`H2/Proofs/Ms
 * No single end-to-end theorem from octets on the wire to the dispatch record: A–C are about the full model, D–G
   about the layer models; that `fieldLoop`/`rlDrain` call the very functions D and E are about is by definition
   (`Hpack.Dec.next`, `Frame.readFrame` appear in `H2/Server/Model.lean`), that `Hpack.Block.loop` (C03's loop) and
-  `Server.fieldLoop` agree is NOT a theorem (they differ on the F05 case: what is handed on for a block of size
-  updates only), and that the abstract `Server.Flow` model (G) abstracts the full model's send path is checked by the
+  `Server.fieldLoop` agree is NOT a theorem (they are written with the same case split over `Hpack.Dec.next` and
+  `Hpack.Dec.skipUpdates`, by inspection), and that the abstract `Server.Flow` model (G) abstracts the full model's send path is checked by the
   lockstep run of the driver, not proved. The tie between model and Go code is the correspondence check.
 * "exactly once" is proved as "at most once" for every history (A) plus "at least once" per step
   (`complete_request_dispatched_step`); there is no run-level liveness theorem (it would need well-formedness of the
@@ -241,19 +241,18 @@ theorem request_field_decoded (n : Nat) (st : Hpack.DecState) (bs : Bool) (fp : 
   loopFields_cons n st st' bs fp _ rest f (C03.dec_complete st bs fp r w rest hw st' (some f) ha)
 
 /-- **fragmentation_independence**: cutting a header block into HEADERS + CONTINUATION frames at any octets gives the
-header list, table and verdict of the whole block (blocks opening with a table size update excluded: F04/F05) -/
+header list, table and verdict of the whole block — also inside, between and right behind the dynamic table size
+updates a block may open with (F04/F05 repaired) -/
 theorem fragmentation_independence (dec : Hpack.DecState) (frames : List Bytes) (hne : frames ≠ [])
-    (hle : dec.maxSize ≤ dec.limit) (hnu : Hpack.Spec.startsWithUpdateOctet frames.flatten = false) :
-    C03.SplitAgrees dec frames :=
-  C03.split_invariance_partial dec frames hne hle hnu
+    (hle : dec.maxSize ≤ dec.limit) : C03.SplitAgrees dec frames :=
+  C03.split_invariance dec frames hne hle
 
 /-- a block in one frame: the header list RFC 7541 assigns to it, or an error exactly where RFC 7541 has one -/
-theorem whole_block (dec : Hpack.DecState) (b : Bytes) (hle : dec.maxSize ≤ dec.limit)
-    (hnb : b ≠ [] → Hpack.NotBareUpdates dec b) :
+theorem whole_block (dec : Hpack.DecState) (b : Bytes) (hle : dec.maxSize ≤ dec.limit) :
     match Hpack.Spec.decodeBlock dec b with
-    | some (st', fs) => Hpack.Block.feed ⟨dec, []⟩ false true b = .ok ⟨st', []⟩ fs
-    | none => ∃ fs, Hpack.Block.feed ⟨dec, []⟩ false true b = .err fs :=
-  C03.block_whole dec b hle hnb
+    | some (st', fs) => Hpack.Block.feed ⟨dec, [], false⟩ false true b = .ok ⟨st', [], !fs.isEmpty⟩ fs
+    | none => ∃ fs, Hpack.Block.feed ⟨dec, [], false⟩ false true b = .err fs :=
+  C03.block_whole dec b hle
 
 /-! ## E. frames: padding and priority are stripped by the parser (restated from C05) -/
 
